@@ -161,6 +161,83 @@ class RePattern:
     pattern: str
 
 
+@dataclass(frozen=True)
+class ABytes:
+    """<text>.encode(codec, errors): the bytes of an opaque string."""
+    src: object
+    codec: str
+    errors: str
+
+
+@dataclass(eq=False)
+class AHash:
+    """A hashlib object: algorithm + the sequence of byte strings fed to it."""
+    algo: str
+    data: list
+
+
+@dataclass(frozen=True)
+class ADigest:
+    """hexdigest()/digest() of an AHash, possibly sliced."""
+    algo: str
+    data: tuple
+    kind: str                  # 'hex' | 'bytes'
+    lo: int | None = 0
+    hi: int | None = None
+    step: int | None = None
+
+
+@dataclass(frozen=True)
+class ABits:
+    """An integer read from a digest slice, times an exact rational scale (1 for the bare integer)."""
+    digest: ADigest
+    byteorder: str
+    scale: object              # fractions.Fraction
+
+
+class Num:
+    """An abstract number: a sympy expression over named unknowns.  Arithmetic builds expressions; comparisons are
+    answered by the oracle the analysing rule installs (`Interp.num_oracle`), by sympy when the sign is known, or not at all
+    (Unsupported: the computation left the domain the rule set up)."""
+    __slots__ = ("e",)
+
+    def __init__(self, e):
+        self.e = e
+
+    def __repr__(self):
+        return f"Num({self.e})"
+
+
+@dataclass(frozen=True)
+class Indexed:
+    """seq[index] where the index is an abstract number (e.g. population[floor(u*n)])."""
+    seq: object
+    index: object
+
+    def __repr__(self):
+        return f"Indexed(<{len(self.seq.items)} items>, {self.index})"
+
+
+def _sp():
+    import sympy
+    return sympy
+
+
+def _to_expr(v):
+    sp = _sp()
+    if isinstance(v, Num):
+        return v.e
+    if isinstance(v, bool):
+        return None
+    if isinstance(v, int):
+        return sp.Integer(v)
+    if isinstance(v, float):
+        if v != v or v in (float("inf"), float("-inf")):
+            return sp.nan if v != v else (sp.oo if v > 0 else -sp.oo)
+        return sp.nsimplify(v, rational=True) if float(v).is_integer() or abs(v) < 1e6 else sp.Float(v)
+    return None
+
+
 class ACounter(ADict):
     """collections.Counter / defaultdict(int): a missing key reads as 0."""
 
@@ -194,6 +271,7 @@ class FuncVal:
     node: ast.FunctionDef
     bound: object = None
     owner: ClassVal | None = None
+    closure: object = None          # Env of the enclosing function (nested def / lambda), looked up late
 
 
 @dataclass(frozen=True)
@@ -345,6 +423,9 @@ class Interp:
             raise Unsupported("abstract interpretation did not terminate (step budget)")
         fn = fv.node
         qual = f"{fv.mod.rel}:{(fv.owner.name + '.') if fv.owner else ''}{fn.name}"
+        hook = getattr(self, "call_hooks", {}).get(qual)
+        if hook is not None:
+            return hook(self, args, kwargs, site)
         self.calls.append(qual)
         a = fn.args
         if a.posonlyargs:
@@ -366,7 +447,7 @@ class Interp:
             if ko.arg in kw:
                 local[ko.arg] = kw.pop(ko.arg)
         # defaults
-        env = Env(fv.mod, local)
+        env = Env(fv.mod, local, outer=fv.closure)
         ndef = len(a.defaults)
         for i, d in enumerate(a.defaults):
             nme = params[len(params) - ndef + i]
@@ -591,7 +672,7 @@ class Interp:
         return
 
     def st_FunctionDef(self, st, env):
-        env.local[st.name] = FuncVal(env.mod, st)
+        env.local[st.name] = FuncVal(env.mod, st, closure=env)
 
     def st_Try(self, st, env):
         try:
@@ -881,7 +962,7 @@ class Interp:
                 c_ = m_.classes().get(o.cls)
                 if c_ is not None and self.class_val(m_, c_).kind == "enum":
                     return self.class_attr(self.class_val(m_, c_), attr, o, site)
-        if isinstance(o, (Tmpl, AList, ASet, ADict, Sym, StrBuf, RePattern)):
+        if isinstance(o, (Tmpl, AList, ASet, ADict, Sym, StrBuf, RePattern, AHash, ABytes, ADigest)):
             return BoundMethod(o, attr)
         if isinstance(o, ExtVal):
             if o.module == "math" and not o.attr and attr in ("inf", "nan", "pi", "e", "tau"):
@@ -1006,8 +1087,14 @@ class Interp:
                 return self.slice_tmpl(o, slice(lo, hi, st), site)
             if isinstance(o, Sym) and o.kind == "rawtoken":
                 return Sym("str", o.src + f"[{lo}:{hi}]")
+            if isinstance(o, ADigest) and all(isinstance(x, int) or x is None for x in (lo, hi, st)):
+                if (o.lo, o.hi, o.step) != (0, None, None):
+                    raise Unsupported(f"a digest is sliced twice ({site})")
+                return ADigest(o.algo, o.data, o.kind, 0 if lo is None else lo, hi, st)
             raise Unsupported(f"slice of {type(o).__name__} ({site})")
         k = self.eval(n.slice, env)
+        if isinstance(o, AList) and isinstance(k, Num):
+            return Indexed(o, k.e)
         if isinstance(o, AList) and isinstance(k, int):
             try:
                 return o.items[k]
@@ -1022,6 +1109,8 @@ class Interp:
             raise RaiseSig("KeyError", site)
         if isinstance(o, PVal) and isinstance(k, int):
             return o.values[k]
+        if self._is_namedtuple(o) and isinstance(k, int):
+            return [o.attrs[f_[0]] for f_ in self._record_fields(o.cls)][k]
         if isinstance(o, Tmpl) and isinstance(k, int):
             if o.is_literal():
                 try:
@@ -1100,6 +1189,15 @@ class Interp:
                 d[self.dict_key(tmp, self.eval(k, env), env.mod.site(n))] = self.eval(v, env)
         return ADict(d)
 
+    def ev_NamedExpr(self, n, env):
+        v = self.eval(n.value, env)
+        # binds in the enclosing function's scope (comprehension scopes are transparent to the walrus)
+        e = env
+        while e.outer is not None and "__comp__" in e.local:
+            e = e.outer
+        e.local[n.target.id] = v
+        return v
+
     def ev_IfExp(self, n, env):
         if self.truthy(self.eval(n.test, env), env.mod.site(n.test) + " " + norm(n.test)):
             return self.eval(n.body, env)
@@ -1121,6 +1219,8 @@ class Interp:
         if isinstance(n.op, ast.Not):
             return not self.truthy(v, env.mod.site(n))
         if isinstance(n.op, ast.USub):
+            if isinstance(v, Num):
+                return Num(-v.e)
             if isinstance(v, Sym) and v.kind in ("int", "float"):
                 return Sym(v.kind, v.src, neg=not v.neg, coerced=v.coerced, uid=v.uid)
             if isinstance(v, (int, float)) and not isinstance(v, bool):
@@ -1131,6 +1231,35 @@ class Interp:
         return self.binop(n.op, self.eval(n.left, env), self.eval(n.right, env), env.mod.site(n))
 
     def binop(self, op, a, b, site):
+        if isinstance(a, ABits) or isinstance(b, ABits):
+            from fractions import Fraction
+            bits, other, left = (a, b, True) if isinstance(a, ABits) else (b, a, False)
+            if _isnum(other) and other == other and other not in (float("inf"), float("-inf")):
+                k = Fraction(other)          # exact, also for floats such as 2**-32
+                if isinstance(op, ast.Div) and left and k != 0:
+                    return ABits(bits.digest, bits.byteorder, bits.scale / k)
+                if isinstance(op, ast.Mult):
+                    return ABits(bits.digest, bits.byteorder, bits.scale * k)
+                if isinstance(op, ast.RShift) and left and isinstance(other, int) and other >= 0 and bits.scale == 1:
+                    return ABits(bits.digest, bits.byteorder, Fraction(1, 2 ** other)) if False else self._unsupported_bits(op, site)
+            raise Unsupported(f"operator {type(op).__name__} on the hash integer at {site}")
+        if isinstance(a, Num) or isinstance(b, Num):
+            ea, eb = _to_expr(a), _to_expr(b)
+            if ea is not None and eb is not None:
+                sp = _sp()
+                if isinstance(op, ast.Add):
+                    return Num(ea + eb)
+                if isinstance(op, ast.Sub):
+                    return Num(ea - eb)
+                if isinstance(op, ast.Mult):
+                    return Num(ea * eb)
+                if isinstance(op, ast.Div):
+                    return Num(ea / eb)
+                if isinstance(op, ast.Pow):
+                    return Num(ea ** eb)
+                if isinstance(op, ast.FloorDiv):
+                    return Num(sp.floor(ea / eb))
+            raise Unsupported(f"operator {type(op).__name__} on an abstract number at {site}")
         if isinstance(op, ast.Add):
             if isinstance(a, Tmpl) and isinstance(b, Tmpl):
                 return a + b
@@ -1157,6 +1286,16 @@ class Interp:
                            uid=500000 + (ua * 997 + ub) % 400000)
         if isinstance(op, ast.Sub) and _isnum(a) and _isnum(b):
             return a - b
+        if _isnum(a) and _isnum(b) and isinstance(op, (ast.FloorDiv, ast.Mod, ast.Div, ast.Pow, ast.LShift, ast.RShift, ast.BitAnd, ast.BitOr, ast.BitXor)):
+            import operator as _op
+            f_ = {ast.FloorDiv: _op.floordiv, ast.Mod: _op.mod, ast.Div: _op.truediv, ast.Pow: _op.pow, ast.LShift: _op.lshift,
+                  ast.RShift: _op.rshift, ast.BitAnd: _op.and_, ast.BitOr: _op.or_, ast.BitXor: _op.xor}[type(op)]
+            try:
+                return f_(a, b)
+            except ZeroDivisionError:
+                raise RaiseSig("ZeroDivisionError", site)
+            except (TypeError, ValueError, OverflowError) as e_:
+                raise RaiseSig(type(e_).__name__, site)
         if isinstance(op, ast.Mult):
             if isinstance(a, Tmpl) and isinstance(b, int):
                 return Tmpl(a.parts * b, a.nondet)
@@ -1240,6 +1379,10 @@ class Interp:
     def equal(self, a, b, site):
         if a is None or b is None:
             return a is None and b is None
+        if isinstance(a, Num) or isinstance(b, Num):
+            if _to_expr(a) is None or _to_expr(b) is None:
+                return False
+            return self.num_compare("Eq", a, b, site)
         if isinstance(a, Sym) and a.overflow and (_isnum(b) or (isinstance(b, Sym) and b.overflow)):
             a = a.as_inf()
         if isinstance(b, Sym) and b.overflow and _isnum(a):
@@ -1290,7 +1433,47 @@ class Interp:
             return a is b
         raise Unsupported(f"equality of {type(a).__name__} at {site}")
 
+    def _unsupported_bits(self, op, site):
+        raise Unsupported(f"operator {type(op).__name__} on the hash integer at {site}")
+
+    def num_floor(self, v, site, what):
+        """floor of an abstract number; int() truncates, which is floor only for non-negative values."""
+        sp = _sp()
+        e = _to_expr(v)
+        if what == "int()" and not (e.is_nonnegative or getattr(self, "num_nonnegative", lambda _e: False)(e)):
+            raise Unsupported(f"int() of an abstract number whose sign is unknown at {site}")
+        return sp.floor(e)
+
+    def num_compare(self, opname, a, b, site):
+        """a <op> b for abstract numbers: the rule's oracle first, then what sympy can tell from the assumptions."""
+        ea, eb = _to_expr(a), _to_expr(b)
+        if ea is None or eb is None:
+            raise Unsupported(f"comparison of an abstract number with {type(a if ea is None else b).__name__} at {site}")
+        oracle = getattr(self, "num_oracle", None)
+        if oracle is not None:
+            r = oracle(opname, ea, eb)
+            if r is not None:
+                return r
+        sp = _sp()
+        if ea in (sp.oo, -sp.oo) or eb in (sp.oo, -sp.oo):
+            # an infinite bound against a finite unknown (the rule's unknowns are finite) or another infinity
+            va = 1 if ea == sp.oo else (-1 if ea == -sp.oo else 0)
+            vb = 1 if eb == sp.oo else (-1 if eb == -sp.oo else 0)
+            sign_ = (va > vb) - (va < vb)
+            return {"Lt": sign_ < 0, "LtE": sign_ <= 0, "Gt": sign_ > 0, "GtE": sign_ >= 0, "Eq": sign_ == 0, "NotEq": sign_ != 0}[opname]
+        d = sp.simplify(ea - eb)
+        sign = 1 if d.is_positive else (-1 if d.is_negative else (0 if d.is_zero else None))
+        if sign is None and d.is_nonnegative and opname in ("GtE", "Lt"):
+            return opname == "GtE"
+        if sign is None and d.is_nonpositive and opname in ("LtE", "Gt"):
+            return opname == "LtE"
+        if sign is None:
+            raise Unsupported(f"comparison {ea} {opname} {eb} is outside the ordering domain of the analysis at {site}")
+        return {"Lt": sign < 0, "LtE": sign <= 0, "Gt": sign > 0, "GtE": sign >= 0, "Eq": sign == 0, "NotEq": sign != 0}[opname]
+
     def order(self, op, a, b, site):
+        if isinstance(a, Num) or isinstance(b, Num):
+            return self.num_compare(type(op).__name__, a, b, site)
         if isinstance(a, MinLen) and isinstance(b, int):
             if isinstance(op, ast.Gt) and a.n > b:
                 return True
@@ -1416,6 +1599,8 @@ class Interp:
             return [self._unkey(k) for k in v.items]
         if isinstance(v, Tmpl) and v.is_literal():
             return [Tmpl.lit(ch) for ch in v.text()]
+        if self._is_namedtuple(v):
+            return [v.attrs[f_[0]] for f_ in self._record_fields(v.cls)]
         if isinstance(v, _MapIter):
             return v.items
         if isinstance(v, ClassVal) and v.kind == "enum":
@@ -1449,7 +1634,7 @@ class Interp:
                 if isinstance(x, _Tagged):
                     nd.append(x.site)
                     x = x.value
-                e2 = Env(e.mod, {}, outer=e)
+                e2 = Env(e.mod, {"__comp__": True}, outer=e)
                 self.assign(g.target, x, e2)
                 if all(self.truthy(self.eval(c, e2), env.mod.site(c)) for c in g.ifs):
                     rec(gi + 1, e2)
@@ -1472,7 +1657,7 @@ class Interp:
     def ev_Lambda(self, n, env):
         fn = ast.FunctionDef(name="<lambda>", args=n.args, body=[ast.Return(value=n.body)],
                              decorator_list=[], lineno=n.lineno, col_offset=0)
-        return FuncVal(env.mod, fn)
+        return FuncVal(env.mod, fn, closure=env)
 
     def ev_Starred(self, n, env):
         raise Unsupported("starred expression")
@@ -1545,11 +1730,62 @@ class Interp:
             init = self.class_attr(cv, "__init__", o, site)
         except Unsupported:
             init = None
+        if init is None and self._record_fields(cv) is not None:
+            fields = self._record_fields(cv)
+            names = [f_[0] for f_ in fields]
+            if len(args) > len(names):
+                raise RaiseSig("TypeError", site, f"{cv.name}() takes {len(names)} positional arguments")
+            vals = dict(zip(names, args))
+            for k, v in kwargs.items():
+                if k not in names or k in vals:
+                    raise RaiseSig("TypeError", site, f"{cv.name}() got an unexpected or repeated argument {k}")
+                vals[k] = v
+            for nme, dflt in fields:
+                if nme not in vals:
+                    if dflt is None:
+                        raise RaiseSig("TypeError", site, f"{cv.name}() missing argument {nme}")
+                    dv = dflt
+                    if isinstance(dv, ast.Call) and (dotted(dv.func) or "").split(".")[-1] == "field":
+                        kw_ = {k_.arg: k_.value for k_ in dv.keywords}
+                        if "default" in kw_:
+                            vals[nme] = self.eval(kw_["default"], Env(cv.mod, {}))
+                        elif "default_factory" in kw_:
+                            vals[nme] = self.apply(self.eval(kw_["default_factory"], Env(cv.mod, {})), [], {}, site)
+                        else:
+                            raise RaiseSig("TypeError", site, f"{cv.name}() missing argument {nme}")
+                    else:
+                        vals[nme] = self.eval(dv, Env(cv.mod, {}))
+            o.attrs.update({nme: vals[nme] for nme in names})
+            try:
+                post = self.class_attr(cv, "__post_init__", o, site)
+            except Unsupported:
+                post = None
+            if post is not None:
+                self.call(post, [], {}, site)
+            return o
         if init is not None:
             self.call(init, args, kwargs, site)
         elif args or kwargs:
             raise Unsupported(f"{cv.name}() takes no arguments ({site})")
         return o
+
+    def _record_fields(self, cv: ClassVal):
+        """[(name, default expr or None)] for @dataclass classes and typing.NamedTuple subclasses; None otherwise."""
+        node = cv.node
+        is_dc = any((dotted(d.func) if isinstance(d, ast.Call) else dotted(d) or "").split(".")[-1] == "dataclass" for d in node.decorator_list)
+        is_nt = any((dotted(b) or "").split(".")[-1] == "NamedTuple" for b in node.bases)
+        if not (is_dc or is_nt):
+            return None
+        out = []
+        for st in node.body:
+            if isinstance(st, ast.AnnAssign) and isinstance(st.target, ast.Name):
+                if "ClassVar" in norm(st.annotation):
+                    continue
+                out.append((st.target.id, st.value))
+        return out
+
+    def _is_namedtuple(self, o) -> bool:
+        return isinstance(o, Obj) and any((dotted(b) or "").split(".")[-1] == "NamedTuple" for b in o.cls.node.bases)
 
     # pydantic v1 model construction ----------------------------------------
     VALUE_ALTERING_CONFIG = ("anystr_strip_whitespace", "anystr_lower", "anystr_upper", "min_anystr_length", "max_anystr_length")
@@ -1788,6 +2024,22 @@ class Interp:
 
     # builtins --------------------------------------------------------------
     def builtin(self, name, args, kwargs, site):
+        if name == "int" and args and isinstance(args[0], ADigest):
+            base = args[1] if len(args) > 1 else kwargs.get("base", 10)
+            if args[0].kind == "hex" and base == 16:
+                from fractions import Fraction
+                return ABits(args[0], "big", Fraction(1))
+            raise Unsupported(f"int() of a digest with base {base!r} at {site}")
+        if name == "int.from_bytes" and args and isinstance(args[0], ADigest) and args[0].kind == "bytes":
+            order = args[1] if len(args) > 1 else kwargs.get("byteorder")
+            if not (isinstance(order, Tmpl) and order.is_literal()):
+                raise Unsupported(f"int.from_bytes with a computed byte order at {site}")
+            if kwargs.get("signed"):
+                raise Unsupported(f"int.from_bytes(signed=True) at {site}")
+            from fractions import Fraction
+            return ABits(args[0], order.text(), Fraction(1))
+        if name == "float" and args and isinstance(args[0], ABits):
+            return args[0]
         if name == "dict.fromkeys" and args:
             d = ADict({})
             for k in self.iterate(args[0], site):
@@ -1796,6 +2048,16 @@ class Interp:
                 if kk not in d.items:
                     d.items[kk] = args[1] if len(args) > 1 else None
             return d
+        if name == "next" and args and isinstance(args[0], (AList, _MapIter)):
+            items = self.iterate(args[0], site)
+            if items:
+                x = items[0]
+                return x.value if isinstance(x, _Tagged) else x
+            if len(args) > 1:
+                return args[1]
+            raise RaiseSig("StopIteration", site)
+        if name == "iter" and len(args) == 1 and isinstance(args[0], (AList, _MapIter, ADict)):
+            return AList([x.value if isinstance(x, _Tagged) else x for x in self.iterate(args[0], site)], "list")
         if name == "filter" and len(args) == 2:
             f, it = args
             out = []
@@ -1817,6 +2079,34 @@ class Interp:
             return self.render(args[0], "ascii", site)
         if name == "format" and len(args) == 1:
             return self.render(args[0], "str", site)
+        if args and any(isinstance(a_, Num) for a_ in args) or (name in ("sum", "min", "max") and args and isinstance(args[0], AList)
+                                                               and any(isinstance(x, Num) for x in args[0].items)):
+            sp = _sp()
+            if name == "abs":
+                return Num(sp.Abs(args[0].e))
+            if name == "float":
+                return args[0]
+            if name == "int":
+                return Num(self.num_floor(args[0], site, "int()"))
+            if name in ("min", "max") and (len(args) > 1 or isinstance(args[0], AList)):
+                vals = args[0].items if len(args) == 1 else args
+                es = [_to_expr(x) for x in vals]
+                if all(e is not None for e in es):
+                    return Num((sp.Min if name == "min" else sp.Max)(*es))
+            if name == "sum":
+                es = [_to_expr(x) for x in args[0].items]
+                if all(e is not None for e in es):
+                    return Num(sum(es, _to_expr(args[1]) if len(args) > 1 else sp.Integer(0)))
+            if name == "isinstance":
+                t = args[1]
+                ts = t.items if isinstance(t, AList) else [t]
+                return any(getattr(c_, "name", None) in ("float", "int", "Number", "Real", "object") for c_ in ts)
+            if name == "bool":
+                return not self.num_compare("Eq", args[0], 0, site)
+            if name in ("str", "repr", "format"):
+                raise Unsupported(f"{name}() of an abstract number at {site}")
+            if name in ("round", "divmod", "pow"):
+                raise Unsupported(f"{name}() of an abstract number at {site}")
         if name == "len":
             v = args[0]
             if isinstance(v, (AList, ASet)):
@@ -1975,6 +2265,20 @@ class Interp:
 
     def method(self, recv, name, args, kwargs, site):
         args = [x.value if isinstance(x, _Tagged) else x for x in args]
+        if isinstance(recv, AHash):
+            if name == "update" and len(args) == 1:
+                recv.data.append(args[0])
+                return None
+            if name in ("hexdigest", "digest") and not args:
+                return ADigest(recv.algo, tuple(recv.data), "hex" if name == "hexdigest" else "bytes")
+            if name == "copy" and not args:
+                return AHash(recv.algo, list(recv.data))
+            raise Unsupported(f"hash object method {name} at {site}")
+        if isinstance(recv, ADigest):
+            if name == "hex" and recv.kind == "bytes" and not args and recv.step is None:
+                lo, hi = recv.lo, recv.hi
+                return ADigest(recv.algo, recv.data, "hex", None if lo is None else lo * 2, None if hi is None else hi * 2)
+            raise Unsupported(f"method {name} on a digest at {site}")
         if isinstance(recv, RePattern):
             import re as _re
 
@@ -2275,6 +2579,16 @@ class Interp:
                 return self.choose(f"{recv.src}.{name}() at {site}")
             if recv.kind == "rawtoken" and name in ("find", "index"):
                 return Sym("int", recv.src + "." + name)
+            if name == "encode" and recv.kind in ("str", "rawtoken") and getattr(self, "hash_domain", False):
+                def lit(v_, dflt):
+                    if v_ is None:
+                        return dflt
+                    if isinstance(v_, Tmpl) and v_.is_literal():
+                        return v_.text()
+                    raise Unsupported(f"encode() with a computed argument at {site}")
+                codec = lit(args[0] if args else kwargs.get("encoding"), "utf-8")
+                errors = lit(args[1] if len(args) > 1 else kwargs.get("errors"), "strict")
+                return ABytes(recv, codec.lower().replace("_", "-"), errors)
             raise Unsupported(
                 f"method .{name}() on an opaque {recv.kind} value ({recv.src}) at {site}: "
                 "the generated text would depend on the literal's content")
@@ -2291,8 +2605,83 @@ class Interp:
             if q.endswith(".isEnabledFor"):
                 return False
             return None            # emitting a log record / warning does not affect the compiled text
+        if root == "hashlib":
+            algo = q.split(".")[-1]
+            rest = list(args)
+            if algo == "new":
+                if not (rest and isinstance(rest[0], Tmpl) and rest[0].is_literal()):
+                    raise Unsupported(f"hashlib.new with a computed algorithm at {site}")
+                algo = rest.pop(0).text()
+            if "data" in kwargs:
+                rest.append(kwargs["data"])
+            return AHash(algo.lower(), rest[:1])
+        if q in ("binascii.hexlify",) and args and isinstance(args[0], ADigest) and args[0].kind == "bytes":
+            return self.method(args[0], "hex", [], {}, site)
         if q in ("typing.cast",) and len(args) == 2:
             return args[1]
+        if q in ("math.ldexp", "ldexp") and len(args) == 2 and isinstance(args[0], ABits) and isinstance(args[1], int):
+            from fractions import Fraction
+            return ABits(args[0].digest, args[0].byteorder, args[0].scale * Fraction(2) ** args[1])
+        if root in ("math", "cmath") and args and any(isinstance(a_, Num) for a_ in args):
+            sp = _sp()
+            fn_ = q.split(".")[-1]
+            e0 = _to_expr(args[0])
+            if fn_ in ("isfinite", "isinf", "isnan"):
+                fact = getattr(self, "num_fact", None)
+                r = fact(fn_, e0) if fact is not None else None
+                if r is None:
+                    raise Unsupported(f"math.{fn_} of an abstract number is outside the domain of the analysis at {site}")
+                return r
+            if fn_ in ("floor", "trunc"):
+                return Num(self.num_floor(args[0], site, "floor" if fn_ == "floor" else "int()"))
+            if fn_ == "ceil":
+                return Num(sp.ceiling(e0))
+            table = {"sqrt": sp.sqrt, "log": sp.log, "exp": sp.exp, "fabs": sp.Abs, "atanh": sp.atanh, "tanh": sp.tanh, "erf": sp.erf,
+                     "log1p": lambda x: sp.log(1 + x), "expm1": lambda x: sp.exp(x) - 1}
+            if fn_ in table and len(args) == 1:
+                return Num(table[fn_](e0))
+            if fn_ == "log" and len(args) == 2:
+                return Num(sp.log(e0, _to_expr(args[1])))
+            if fn_ == "pow" and len(args) == 2:
+                return Num(e0 ** _to_expr(args[1]))
+            if fn_ == "ldexp" and len(args) == 2 and isinstance(args[1], int):
+                return Num(e0 * sp.Integer(2) ** args[1])
+            if fn_ == "copysign" or fn_ == "fsum":
+                raise Unsupported(f"math.{fn_} of an abstract number at {site}")
+        if q in ("itertools.accumulate", "accumulate") and args and isinstance(args[0], (AList, _MapIter)) and len(args) == 1 and not kwargs:
+            items = [x.value if isinstance(x, _Tagged) else x for x in self.iterate(args[0], site)]
+            out, acc = [], None
+            for x in items:
+                acc = x if acc is None else self.binop(ast.Add(), acc, x, site)
+                out.append(acc)
+            return _MapIter(out)
+        if root == "bisect" and len(args) >= 2 and isinstance(args[0], AList):
+            fn_ = q.split(".")[-1]
+            if fn_ in ("bisect", "bisect_right", "bisect_left"):
+                keyf_ = kwargs.get("key")
+                a_, x_ = args[0].items, args[1]
+                if keyf_ is not None:
+                    a_ = [self.apply(keyf_, [y_], {}, site) for y_ in a_]
+                lo = args[2] if len(args) > 2 else kwargs.get("lo", 0)
+                hi = args[3] if len(args) > 3 else kwargs.get("hi", None)
+                hi = len(a_) if hi is None else hi
+                if not (isinstance(lo, int) and isinstance(hi, int)):
+                    raise Unsupported(f"bisect bounds are not concrete integers at {site}")
+                if lo < 0:
+                    raise RaiseSig("ValueError", site, "lo must be non-negative")
+                while lo < hi:          # the algorithm of the stdlib module
+                    mid = (lo + hi) // 2
+                    if mid >= len(a_):
+                        raise RaiseSig("IndexError", site)
+                    if fn_ == "bisect_left":
+                        go_right = self.order(ast.Lt(), a_[mid], x_, site)
+                    else:
+                        go_right = not self.order(ast.Lt(), x_, a_[mid], site)
+                    if go_right:
+                        lo = mid + 1
+                    else:
+                        hi = mid
+                return lo
         if q in ("collections.Counter", "Counter"):
             c = ACounter({})
             if args:
@@ -2316,8 +2705,34 @@ class Interp:
             return args[0]
         if q in ("io.StringIO", "StringIO"):
             return StrBuf([args[0]] if args and isinstance(args[0], Tmpl) else [])
-        if q in ("operator.itemgetter", "operator.attrgetter"):
-            raise Unsupported(f"{q} at {site}")
+        if q in ("operator.itemgetter", "operator.attrgetter") and len(args) == 1:
+            key_ = args[0]
+            fn_src = f"lambda _x: _x[{key_!r}]" if q.endswith("itemgetter") and isinstance(key_, int) else None
+            if q.endswith("attrgetter") and isinstance(key_, Tmpl) and key_.is_literal() and key_.text().isidentifier():
+                fn_src = f"lambda _x: _x.{key_.text()}"
+            if q.endswith("itemgetter") and isinstance(key_, Tmpl) and key_.is_literal():
+                fn_src = f"lambda _x: _x[{key_.text()!r}]"
+            if fn_src is None:
+                raise Unsupported(f"{q} at {site}")
+            lam = ast.parse(fn_src, mode="eval").body
+            some_mod = next(iter(self.src.modules.values()))
+            return self.ev_Lambda(lam, Env(some_mod, {}))
+        if root == "operator" and q.split(".")[-1] in ("lt", "le", "gt", "ge", "eq", "ne", "add", "sub", "mul", "truediv", "neg", "not_",
+                                                        "getitem", "contains") and args:
+            nm_ = q.split(".")[-1]
+            cmp_ = {"lt": ast.Lt, "le": ast.LtE, "gt": ast.Gt, "ge": ast.GtE}
+            if nm_ in cmp_ and len(args) == 2:
+                return self.order(cmp_[nm_](), args[0], args[1], site)
+            if nm_ in ("eq", "ne") and len(args) == 2:
+                r_ = self.equal(args[0], args[1], site)
+                return r_ if nm_ == "eq" else not r_
+            ops_ = {"add": ast.Add, "sub": ast.Sub, "mul": ast.Mult, "truediv": ast.Div}
+            if nm_ in ops_ and len(args) == 2:
+                return self.binop(ops_[nm_](), args[0], args[1], site)
+            if nm_ == "not_":
+                return not self.truthy(args[0], site)
+            if nm_ == "contains" and len(args) == 2:
+                return self.contains(args[0], args[1], site)
         if q == "re.escape" and args and isinstance(args[0], Tmpl) and args[0].is_literal():
             import re as _re
             return Tmpl.lit(_re.escape(args[0].text()))
